@@ -26,6 +26,7 @@ def parse(text):
                 logical = logical[:-1] + lines[i].lstrip()
             i += 1
             outs, rest = lex_paths(logical[5:], stop_at_colon=True)
+            outs = [o for o in outs if o != "|"]          # explicit and implicit outputs alike are produced by the statement
             toks, _ = lex_paths(rest, stop_at_colon=False)
             rule = toks[0] if toks else ""
             inputs, deps, always = [], [], False
@@ -59,6 +60,10 @@ def lex_paths(s, stop_at_colon):
         if c in " \t":
             if cur is not None: toks.append(cur); cur = None
             i += 1; continue
+        if c == "|":
+            # a pipe always is a token of its own for ninja (there is no escape for it): `a|b` is a, |, b
+            if cur is not None: toks.append(cur); cur = None
+            toks.append("|"); i += 1; continue
         if c == ":" and stop_at_colon:
             if cur is not None: toks.append(cur)
             return toks, s[i + 1:]
